@@ -180,6 +180,11 @@ GEN_TIES = {
         "what": "the transform model no longer equals Transform / CoordinateTransformer translated from gscrib/geometry/transform.py "
                 "and gscrib/geometry/transformer.py",
     },
+    "height": {
+        "props": {"C19"},
+        "gen": "gen_height.py", "gen_file": "GscribModel/Gen/HeightSrc.lean", "tie": "HeightTie", "validate": "harness.tie_height",
+        "what": "the heightmap model no longer equals the raster / sparse / flat heightmap classes translated from gscrib/heightmaps/",
+    },
     "state": {
         "props": {"C02", "C03", "C05", "C06", "C07"},
         "gen": "gen_state.py", "gen_file": "GscribModel/Gen/StateSrc.lean", "tie": "StateTie", "validate": "harness.tie_state",
